@@ -302,6 +302,8 @@ pub struct CliResult {
 }
 
 /// Runs `qmluic generate-ui --foreign-types <dirs> args…` in `cwd` with NO_COLOR, with a watchdog.
+pub const CLI_MEM_LIMIT_KIB: u64 = 4 * 1024 * 1024;
+
 pub fn run_cli(
     cwd: &std::path::Path,
     foreign_types: &[String],
@@ -311,7 +313,10 @@ pub fn run_cli(
     use std::io::Read;
     use std::os::unix::process::ExitStatusExt;
     use std::process::{Command, Stdio};
-    let mut cmd = Command::new(cli_path());
+    // address-space limit for the tool (normal use: tens of MB): a runaway allocation ends the
+    // child with an abnormal status instead of taking the machine down
+    let mut cmd = Command::new("/bin/sh");
+    cmd.arg("-c").arg(format!("ulimit -v {CLI_MEM_LIMIT_KIB}; exec \"$0\" \"$@\"")).arg(cli_path());
     cmd.current_dir(cwd)
         .env("NO_COLOR", "")
         .env_remove("QMLUIC_LOG")
